@@ -23,7 +23,9 @@ if TYPE_CHECKING:
 class ProcessingCondition(ABC):
     """Anchor base class for all processing condition types."""
 
-    _pipeline: "ProcessingPipeline" | None = field(init=False, compare=False, default=None)
+    _pipeline: "ProcessingPipeline" | None = field(
+        init=False, compare=False, repr=False, default=None
+    )
 
     def set_pipeline(self, pipeline: "ProcessingPipeline") -> None:
         if self._pipeline is None:
